@@ -123,6 +123,28 @@ theorem getN_corr1 (w y : List R) (d k : Nat) (hk : k < corrLen y.length w.lengt
   apply Finset.sum_congr rfl; intro j _
   rw [getN_eq_getZ y]; simp
 
+theorem getN_convT (w g : List R) (P i : Nat) (hi : i < (2*(g.length-1) + w.length) - 2*P) :
+    getN (convT w g P) i = ∑ k ∈ range g.length, getN g k * getZ w ((i:Int) + P - 2*k) := by
+  unfold convT convTFull
+  simp only [length_tab]
+  rw [getN_tab]
+  simp only [hi, if_true]
+  rw [getN_tab]
+  have : i + P < 2*(g.length-1) + w.length := by omega
+  simp only [this, if_true]
+  rw [sumN_eq]
+  apply Finset.sum_congr rfl; intro k _
+  congr 2
+
+
+theorem getN_vadd (x y : List R) (i : Nat) (hi : i < x.length) : getN (vadd x y) i = getN x i + getN y i := by
+  unfold vadd; rw [getN_tab]; simp [hi]
+
+theorem getN_take (x : List R) (n i : Nat) (hi : i < n) : getN (x.take n) i = getN x i := by
+  unfold getN
+  rw [List.getD_eq_getElem?_getD, List.getD_eq_getElem?_getD, List.getElem?_take]
+  simp [hi]
+
 /-! ### index maps -/
 
 theorem symIdx_range (l x : Int) (hl : 0 < l) : 0 ≤ symIdx l x ∧ symIdx l x < l := by
